@@ -116,7 +116,27 @@ def run_cons(case, viol, obs):
             viol.append({"sig": f"C10/constraints/{cls}/{res['stage']}-raises/{res['exc'][0]}", "msg": f"{res['exc']}; {desc}"})
         elif not res["tl"] and not res["solved"]:
             # the planted solution satisfies the constraints with k >= planted routes (FD: exact flow; others: always feasible)
-            viol.append({"sig": f"C10/constraints/{cls}/unsolved-although-planted-solution-satisfies-them" + ("/node" if node else ""), "msg": f"{desc}"})
+            mech = ""
+            if cls == "kMinPathErrorCycles" and not node:
+                # classify by mechanism (see C08): infeasible only under the library's own per-edge multiplicity caps / product bound?
+                try:
+                    from fpverif.props import c08
+                    Gx = gen.build(inst["spec"])
+                    cols, _ = c08.columns(Gx, "edge", True, [], [])
+                    demand = {(u, v): d["flow"] for u, v, d in Gx.edges(data=True)}
+                    m = res.get("model"); caps = getattr(m, "edge_upper_bounds", {}) or {}
+                    capped = [c for c in cols if all(caps.get(e) is None or mult <= int(caps[e] + 1e-9) for e, mult in c.items())]
+                    wt_ = models.WT[base["wt"]]
+                    if ref.mpe_min(cols, demand, kw["k"], wt_) is not None:
+                        if len(capped) < len(cols) and ref.mpe_min(capped, demand, kw["k"], wt_) is None:
+                            mech = "/edge-cap-max-reachable-weight"
+                        elif ref.mpe_min(cols, demand, kw["k"], wt_, prod_cap=getattr(m, "w_max", None)) is None:
+                            mech = "/product-bound-w_max"
+                        elif ref.mpe_min(capped, demand, kw["k"], wt_, prod_cap=getattr(m, "w_max", None)) is None:
+                            mech = "/edge-cap+product-bound"
+                except ref.RefTimeout:
+                    pass
+            viol.append({"sig": f"C10/constraints/{cls}/unsolved-although-planted-solution-satisfies-them" + mech + ("/node" if node else ""), "msg": f"{desc}"})
         return None, False, None
     routes = models.routes_of(res["sol"])
     for c in cons:
